@@ -194,9 +194,11 @@ def playback_values(scr, unit, h):
     except subprocess.TimeoutExpired:
         return None
     tests = re.findall(r"```\n(.*?)```", p.stdout, re.S)
-    # Kani also prints a witness test for every satisfied cover!(); keep counterexamples only
-    tests = [t for t in tests if "Check for `cover`" not in t]
-    return tests or None
+    # Kani also prints a witness test for every satisfied cover!(); prefer the tests labelled with a failed check. When the
+    # counterexample coincides with a cover witness Kani prints ONE test, labelled with the cover: such tests are kept as
+    # candidates - the native playback decides (a witness that does not violate anything simply does not reproduce)
+    failing = [t for t in tests if "Check for `cover`" not in t]
+    return failing or tests or None
 
 
 def run_playback(scr, unit, h, tests):
